@@ -143,6 +143,7 @@ type compiler struct {
 	Locals      *lookup
 	scope       []int
 	cur         *token
+	depth       int
 	Imports     map[string]string // alias -> package
 	Optimize    bool
 	Returns     []int
@@ -299,6 +300,9 @@ func (c *compiler) compile(tok *token) []instruction {
 		panicf("missing operand")
 	}
 	c.cur = tok
+	if c.depth++; c.depth > 4*maxDepth { // a long operator chain nests to the left without nesting in the parser
+		panicf("nested too deeply")
+	}
 	var res []instruction
 	switch tok.Symbol {
 	case "(int)":
@@ -956,6 +960,7 @@ func (c *compiler) compile(tok *token) []instruction {
 		}
 		res[n].Pos = newPos(c.Globals, tok.Pos.Filename, c.FuncName, tok.Pos.Line, tok.Pos.Column)
 	}
+	c.depth--
 	return res
 }
 
